@@ -584,3 +584,73 @@ func secAtlas(r *vlib.Run) {
 		checkMapFn(c, rng, uvm, false, 60, 20, desc+" of "+s.desc)
 	}))
 }
+
+// thinUVSection: hand-made UV maps whose 2D triangles are long thin strips (height 1e-8..1e-5 of
+// their length, the sharp corner listed first, second or third) next to ordinary triangles. A strip
+// like that is a valid, non-degenerate UV triangle (large charts produce them along nearly
+// straight boundary stretches); a query built from known barycentric coordinates must come back at
+// the same barycentric position of the 3D triangle.
+func thinUVSection(r *vlib.Run) {
+	const api = "model3d.MeshUVMap.MapFn"
+	r.Section("mapfn.thin", r.N(300, 6000), vlib.SectionOpts{}, func(c *vlib.Case) {
+		rng := c.Rng
+		uvm := model3d.MeshUVMap{}
+		type entry struct {
+			t3 *model3d.Triangle
+			uv [3]C2
+			h  float64
+		}
+		var es []entry
+		n := 2 + rng.Intn(4)
+		for i := 0; i < n; i++ {
+			base := model3d.XYZ(float64(i)*3, 0, 0)
+			t3 := &model3d.Triangle{base.Add(model3d.XYZ(rng.Float64(), rng.Float64(), rng.Float64())), base.Add(model3d.XYZ(1+rng.Float64(), rng.Float64(), 0.2)), base.Add(model3d.XYZ(rng.Float64(), 1+rng.Float64(), 0.5))}
+			// disjoint cells of the unit square: cell i occupies y in [i*0.15, i*0.15+0.1]
+			y0 := float64(i) * 0.15
+			h := 0.1
+			if i%2 == 0 {
+				h = math.Pow(10, -8+3*rng.Float64())
+			}
+			uv := [3]C2{model2d.XY(0.1, y0), model2d.XY(0.9, y0), model2d.XY(0.9-0.3*rng.Float64(), y0+h)}
+			// rotate the corner order: the sharp corners of the strip are the first two
+			k := rng.Intn(3)
+			uv = [3]C2{uv[k], uv[(k+1)%3], uv[(k+2)%3]}
+			if rng.Intn(2) == 0 {
+				uv[1], uv[2] = uv[2], uv[1]
+			}
+			uvm[t3] = uv
+			es = append(es, entry{t3, uv, h})
+		}
+		fn := uvm.MapFn()
+		c.Count("mapfn.thin.maps", 1)
+		for q := 0; q < 20; q++ {
+			e := es[rng.Intn(len(es))]
+			b := [3]float64{rng.Float64(), rng.Float64(), rng.Float64()}
+			s := b[0] + b[1] + b[2]
+			for k := range b {
+				b[k] = 0.05 + 0.85*b[k]/s
+			}
+			p := e.uv[0].Scale(b[0]).Add(e.uv[1].Scale(b[1])).Add(e.uv[2].Scale(b[2]))
+			P, t := fn(p)
+			c.Count("mapfn.thin.queries", 1)
+			if e.h < 0.01 {
+				c.Count("mapfn.thin.queries_in_strips", 1)
+			}
+			if t != e.t3 {
+				c.Violation(api+"/wrong-triangle", "a point strictly inside one UV triangle of an overlap-free map was mapped through another triangle",
+					map[string]interface{}{"strip_height": e.h, "uv": []string{hex2(e.uv[0]), hex2(e.uv[1]), hex2(e.uv[2])}, "barycentric": b, "query": hex2(p)})
+				return
+			}
+			exp := e.t3[0].Scale(b[0]).Add(e.t3[1].Scale(b[1])).Add(e.t3[2].Scale(b[2]))
+			// the query is only known to ~1e-16, i.e. 1e-16/h of the strip height
+			tol := 1e-6 + 1e-14/e.h
+			c.Max("mapfn.thin.worst_error", exp.Dist(P))
+			if dev := exp.Dist(P); dev > tol {
+				c.Violation(api+"/same-barycentric-point", fmt.Sprintf("strip of height %g: expected %s (same barycentric position in the 3D triangle), got a point %g away", e.h, hex3(exp), dev),
+					map[string]interface{}{"strip_height": e.h, "uv": []string{hex2(e.uv[0]), hex2(e.uv[1]), hex2(e.uv[2])}, "barycentric": b, "query": hex2(p)})
+				return
+			}
+		}
+		c.Nontrivial(fmt.Sprint("thinuv", c.Index))
+	})
+}
